@@ -60,9 +60,25 @@ func drawSpec(t *rapid.T) specCase {
 	return sc
 }
 
+// formatMatrixSpec: every format ogen gives a dedicated Go type / text form, in one document
+// (value-directed family only: the reflective builder fills each member with edge values).
+func formatMatrixSpec() specCase {
+	comps := specgen.FormatMatrix()
+	var sc specCase
+	sc.Meta.Doc.Components = comps
+	sc.Meta.Instances = map[string][]string{}
+	for i, n := range comps.Names() {
+		sc.Meta.Doc.Ops = append(sc.Meta.Doc.Ops, specgen.Operation{ID: fmt.Sprintf("op%d", i), Method: "POST", Path: fmt.Sprintf("/f%d", i),
+			Body:      &specgen.Body{Required: true, Media: []specgen.Media{{ContentType: "application/json", Schema: &specgen.Schema{Ref: n}}}},
+			Responses: []specgen.Response{{Code: "200", Media: []specgen.Media{{ContentType: "application/json", Schema: &specgen.Schema{Ref: n}}}}}})
+	}
+	return sc
+}
+
 func drawBatch(t *rapid.T) batchCase {
 	var b batchCase
-	for i := 0; i < 16; i++ {
+	b.Specs = append(b.Specs, formatMatrixSpec())
+	for i := 0; i < 15; i++ {
 		b.Specs = append(b.Specs, drawSpec(t))
 	}
 	return b
